@@ -6,6 +6,14 @@ import translate
 
 
 def setup():
+    runlock = C.run_lock()
+    try:
+        return _setup()
+    finally:
+        runlock.close()
+
+
+def _setup():
     t0 = time.time()
     translate.run()
     bad = C.scan_forbidden()
@@ -31,11 +39,7 @@ def setup():
 
 def run_check(prop, tier, seed, replay):
     # one check at a time: coq/Gen is regenerated from the tree under test and shared by all runs
-    import fcntl
-    os.makedirs(C.BUILD, exist_ok=True)
-    runlock = open(os.path.join(C.BUILD, ".runlock"), "w")
-    # runs against /repo share the lock; a run against another tree (KA_REPO=...) changes coq/Gen and is exclusive
-    fcntl.flock(runlock, fcntl.LOCK_SH if os.path.realpath(C.REPO) == "/repo" else fcntl.LOCK_EX)
+    runlock = C.run_lock()
     try:
         return _run_check(prop, tier, seed, replay)
     finally:
